@@ -15,8 +15,22 @@ type SetModel struct {
 // TypeString renders a type form the way go/types does with a nil qualifier.
 func (m *Module) TypeString(r Ref) string {
 	t := m.Types[r.Idx]
-	if t.Kind == "uslice" {
-		return "[]" + m.TypeString(Ref{Idx: t.Elem})
+	if Unnamed(t.Kind) {
+		e := m.TypeString(Ref{Idx: t.Elem})
+		switch t.Kind {
+		case "uslice":
+			return "[]" + e
+		case "uarray":
+			return "[2]" + e
+		case "umap":
+			return "map[string]" + e
+		case "uptr":
+			return "*" + e
+		case "uchan":
+			return "chan " + e
+		case "ustruct":
+			return "struct{V " + e + "}"
+		}
 	}
 	s := m.PkgImportPath(t.Pkg) + "." + t.Name
 	if r.Ptr {
